@@ -1138,10 +1138,11 @@ class WebSocketProtocol13(WebSocketProtocol):
         reserved_bits = header & self.RSV_MASK
         opcode = header & self.OPCODE_MASK
         opcode_is_control = opcode & 0x8
-        if self._decompressor is not None and opcode != 0:
+        if self._decompressor is not None and opcode != 0 and not opcode_is_control:
             # Compression flag is present in the first frame's header,
             # but we can't decompress until we have all the frames of
-            # the message.
+            # the message. Control frames are never compressed and may
+            # arrive between the fragments, so they must leave it alone.
             self._frame_compressed = bool(reserved_bits & self.RSV1)
             reserved_bits &= ~self.RSV1
         if reserved_bits:
@@ -1218,7 +1219,7 @@ class WebSocketProtocol13(WebSocketProtocol):
         if self.client_terminated:
             return None
 
-        if self._frame_compressed:
+        if self._frame_compressed and not (opcode & 0x8):
             assert self._decompressor is not None
             try:
                 data = self._decompressor.decompress(data)
